@@ -74,6 +74,37 @@ fn extra_builders(tier: Tier) -> Vec<(String, DetBuilder)> {
     kmeans!("kmeans-large-plusplus-l2", KMeansInit::KMeansPlusPlus, L2Dist);
     kmeans!("kmeans-large-plusplus-l1", KMeansInit::KMeansPlusPlus, L1Dist);
     kmeans!("kmeans-large-precomputed-l2", KMeansInit::Precomputed(zoo::probe(9, 5, 4, false)), L2Dist);
+    // configurations off the beaten path of the initialisers: many clusters (an implementation may
+    // switch strategy with the cluster count), fewer distinct observations than clusters (the
+    // "all remaining distances are zero" fallback)
+    for (tag, init) in [("plusplus", KMeansInit::KMeansPlusPlus), ("random", KMeansInit::Random)] {
+        let init_a = init.clone();
+        v.push((format!("kmeans-110-clusters-{tag}"), Box::new(move || {
+            let x = big_blobs(21, 1200, 3);
+            let ds = DatasetBase::from(x);
+            let m = KMeans::params_with(110, rand_xoshiro::Xoshiro256Plus::seed_from_u64(3), L2Dist)
+                .init_method(init_a.clone())
+                .max_n_iterations(3)
+                .tolerance(1e-9)
+                .fit(&ds)
+                .map_err(es)?;
+            Ok(vec![("centroids".into(), arr2(m.centroids())), ("inertia".into(), fb(m.inertia()))])
+        })));
+        v.push((format!("kmeans-fewer-distinct-points-than-clusters-{tag}"), Box::new(move || {
+            let pts = [[0.0, 0.0], [1.0, 0.0], [0.0, 2.0], [3.0, 3.0]];
+            let x = Array2::from_shape_fn((48, 2), |(i, j)| pts[i % 4][j]);
+            let ds = DatasetBase::from(x);
+            let r = KMeans::params_with(7, rand_xoshiro::Xoshiro256Plus::seed_from_u64(11), L2Dist)
+                .init_method(init.clone())
+                .max_n_iterations(10)
+                .fit(&ds);
+            // an error is as reproducible a result as a model
+            Ok(match r {
+                Ok(m) => vec![("centroids".into(), arr2(m.centroids())), ("cluster_count".into(), fbs(m.cluster_count().iter())), ("inertia".into(), fb(m.inertia()))],
+                Err(e) => vec![("error".into(), format!("{e}"))],
+            })
+        })));
+    }
     v.push(("kmeans-default-seed".into(), Box::new(move || {
         let ds = DatasetBase::from(big_blobs(6, 4000, 3));
         let m = KMeans::params(4).max_n_iterations(20).fit(&ds).map_err(es)?;
